@@ -12,6 +12,8 @@ OBLIGATIONS = [
     (P + "frame_roundtrip", "byte image of a frame (header words little endian + payload), followed by anything, parses back to the same header and payload"),
     (P + "recv_frame_any_segmentation", "from ANY segmentation of a byte stream starting with a well-formed frame, header read + exactly `size` payload bytes (stream_socket::read = read_some until full) yield that frame and leave exactly the following bytes on the connection"),
     (P + "transmit_segmentation_independent", "messenger::transmit with arbitrary segmenters of request and reply (any piece sizes, payloads of any size < 2^32) = the unsegmented transmit of the model: same server step, same reply"),
+    (P + "session_wire_exact", "session opcodes: for a 32-byte sid, a value that fits and an int64 deadline, tcp_storage::save/remove make the server's storage execute exactly save(sid,deadline,value)/remove(sid); load returns exactly the storage's answer (a negative deadline is reported absent)"),
+    (P + "session_save_load_roundtrip", "a session saved over the wire is loaded back over the wire with the same deadline and value at every clock value up to its deadline (session_memory_storage incl. short_gc), and is absent after a remove over the wire"),
     (P + "wire_roundtrip_store_partial", "WFwire k v ts d: the frame tcp_cache::store builds is well formed and session::store performs exactly that store: same key, value, deadline, same set of trigger names (excluded: empty key, empty / NUL-containing names, >= 2^31 bytes)"),
     (P + "wire_roundtrip_data_partial", "the server holds k -> (v,trigs,deadline,g), sizes fit, names NUL-free: tcp_cache::fetch returns v, deadline, g unchanged and the same set of trigger names"),
     (P + "step_eq_astep", "under the size bounds one cluster operation over the real codec (headers, uint32 fields, frame validation, strlen loops) EQUALS the operation over the message-level transport used in the coherence proofs"),
@@ -322,7 +324,7 @@ class Layout:
                 struct.pack_into("<I", h, self.off[name], cur)
             elif name in ("fetch.current_gen", "data.generation"):
                 struct.pack_into("<Q", h, self.off[name], v & (2**64 - 1))
-            elif name in ("store.timeout", "data.timeout"):
+            elif name in ("store.timeout", "data.timeout", "session_save.timeout", "session_data.timeout"):
                 struct.pack_into("<q", h, self.off[name], v)
             else:
                 struct.pack_into("<I", h, self.off[name], v & 0xFFFFFFFF)
@@ -331,7 +333,9 @@ class Layout:
         return bytes(h) + payload
 
 
-OPC = dict(fetch=0, rise=1, clear=2, store=3, stats=4, error=5, done=6, data=7, no_data=8, uptodate=9, out_stats=10)
+OPC = dict(fetch=0, rise=1, clear=2, store=3, stats=4, error=5, done=6, data=7, no_data=8, uptodate=9, out_stats=10,
+           session_save=11, session_load=12, session_load_data=13, session_remove=14)
+SESS_TIMEOUTS = (0, -1, 1, 2**31 - 1, 2**31, 2**32 + 7, 2**63 - 1, -2**63)
 
 
 def trig_region(rng, hostile):
@@ -353,6 +357,7 @@ def gen_raw_history(rng, L, nops):
     nsrv = rng.choice((1, 2))
     lines = ["cfg %s n" % ",".join(["0"] * nsrv)]
     keys = [rand_name(rng) for _ in range(3)]
+    sids = [bytes(rng.choice(b"0123456789abcdef") for _ in range(32)) for _ in range(3)]
     now = 1000
     for _ in range(nops):
         now += rng.choice((0, 0, 1, 5))
@@ -360,6 +365,23 @@ def gen_raw_history(rng, L, nops):
         k = rng.choice(keys)
         r = rng.random()
         hostile = rng.random() < 0.4
+        if rng.random() < 0.3:
+            # session opcodes (network session storage behind the same server)
+            sid = rng.choice(sids)
+            q = rng.random()
+            if q < 0.4:
+                v = bytes(rng.randrange(256) for _ in range(rng.choice((0, 1, 5, 40, 300))))
+                payload = sid + v if not hostile or rng.random() < 0.7 else sid[:rng.choice((0, 5, 31))]
+                to = rng.choice((now + 50, now + 3, now, now - 1, now + 1000) + (SESS_TIMEOUTS if hostile else ()))
+                fr = L.frame(payload, opcode=OPC["session_save"], session_save__timeout=to)
+            elif q < 0.85:
+                p = sid if not hostile or rng.random() < 0.7 else rng.choice((sid[:31], sid + b"x", b""))
+                fr = L.frame(p, opcode=OPC["session_load"], session_save__timeout=rng.choice((0, 5)))
+            else:
+                p = sid if not hostile or rng.random() < 0.7 else rng.choice((sid[:31], sid + b"x", b""))
+                fr = L.frame(p, opcode=OPC["session_remove"])
+            lines.append("raw %d %d %s" % (srv, now, fr.hex()))
+            continue
         if r < 0.35:
             v = bytes(rng.randrange(256) for _ in range(rng.choice((0, 1, 3, 20))))
             reg = trig_region(rng, hostile)
@@ -418,6 +440,21 @@ def gen_cw_lines(rng, L, harvested, n):
     lines = []
     ok = L.frame(b"", opcode=OPC["done"]).hex()
     for _ in range(n):
+        if rng.random() < 0.15:
+            sid = bytes(rng.choice(b"0123456789abcdef") for _ in range(32))
+            q = rng.random()
+            if q < 0.4:
+                lines.append("cw ssave %s %d %s %s" % (sid.hex(), rng.choice((1500, 0, -1) + SESS_TIMEOUTS), rand_val(rng), ok))
+            elif q < 0.5:
+                lines.append("cw sremove %s %s" % (sid.hex(), L.frame(b"", opcode=rng.choice((0, 6, 5))).hex()))
+            else:
+                v = bytes(rng.randrange(256) for _ in range(rng.choice((0, 1, 9, 200))))
+                if rng.random() < 0.7:
+                    rep = L.frame(v, opcode=OPC["session_load_data"], session_data__timeout=rng.choice((1500, 0) + SESS_TIMEOUTS))
+                else:
+                    rep = L.frame(b"", opcode=rng.choice((8, 5, 6, 7)))
+                lines.append("cw sload %s %s" % (sid.hex(), rep.hex()))
+            continue
         if rng.random() < 0.3:
             sub = gen_cw_lines(rng, L, harvested, 1)
             lines.append("cws %d %s" % (rng.choice((1, 2, 5, 39, 40, 41, 100, 1000)), sub[0][3:]))
